@@ -345,6 +345,10 @@ def binding_selftest(module, cfgs, trace_path, corrupt, inv_props, timeout=600, 
         if not segs or segs[-1][0] != s:
             segs.append((s, []))
         segs[-1][1].append(l)
+    # a particular corruption can be harmless where it lands (another event of the same burst explains the effect):
+    # up to four segments are tried, and the validator is bound if it rejects one of them
+    last = None
+    tried = 0
     for s, sl in segs[:60]:
         c = corrupt(list(sl))
         if not c:
@@ -356,9 +360,12 @@ def binding_selftest(module, cfgs, trace_path, corrupt, inv_props, timeout=600, 
         tv = validate_trace(module, cfgs, tp, inv_props, max_rounds=2, timeout=timeout, extra_files=extra_files, trace_name=trace_name)
         shutil.rmtree(wd, ignore_errors=True)
         detected = bool(tv["findings"] or tv["deviations"])
-        return dict(tried=True, detected=detected, what=what,
+        tried += 1
+        last = dict(tried=True, detected=detected, what=what, candidates_tried=tried,
                     outcome=[f.get("name") for f in tv["findings"]] or (["deviation"] if tv["deviations"] else []) or tv["inconclusive"])
-    return dict(tried=False, detected=True, what="no segment offered anything to corrupt")
+        if detected or tried >= 4:
+            return last
+    return last or dict(tried=False, detected=True, what="no segment offered anything to corrupt")
 
 
 # ----------------------------------------------------------------------------------------------
